@@ -97,6 +97,7 @@ SIGNATURES = {}
 # running one case under a watchdog (wraps runlib.run_impl)
 
 _LEAK = []
+_LEAK_WINDOW = [1.5]      # seconds a worker process may take to disappear after DoitMain.run returned
 _orig_reap = runlib._reap_children
 _orig_build = runlib.build_namespace
 
@@ -108,7 +109,7 @@ def _reap_counting():
     alive = 0
     t0 = time.time()
     for p in multiprocessing.active_children():
-        p.join(max(0.05, 1.5 - (time.time() - t0)))
+        p.join(max(0.05, _LEAK_WINDOW[0] - (time.time() - t0)))
         if p.is_alive():
             alive += 1
     _LEAK.append(alive)
@@ -171,6 +172,7 @@ def run_once(case, factor=1.0):
             seen.append(text)
         return orig_write(self, text)
     A.Writer.write = write
+    _LEAK_WINDOW[0] = 1.5 * max(1.0, factor)
     try:
         obs = runlib.run_impl(case, watchdog=WATCHDOG[case['runner']] * factor, keep_raw=False)
     finally:
